@@ -502,6 +502,7 @@ pub fn make_prepop(raw: &[RawEntry], pool: &[String], depth: usize, nlayers: usi
     let n = nlayers.max(1);
     let mut types: BTreeMap<String, bool> = BTreeMap::new(); // path -> is_dir
     let mut out: Prepop = vec![];
+    let mut shadowed: std::collections::BTreeSet<(usize, String)> = Default::default();
     for e in raw {
         let mut p = String::new();
         let mut okay = true;
@@ -546,10 +547,16 @@ pub fn make_prepop(raw: &[RawEntry], pool: &[String], depth: usize, nlayers: usi
         if mask == 0 {
             mask = 1 << (e.vary as usize % n);
         }
+        let mut placed: Vec<usize> = vec![];
         for li in 0..n {
             if mask & (1 << li) == 0 {
                 continue;
             }
+            // below a shadowed file (see below) this layer cannot hold anything
+            if ancestors_of(&p).iter().any(|a| shadowed.contains(&(li, a.clone()))) {
+                continue;
+            }
+            placed.push(li);
             let node = if e.is_dir {
                 Node::Dir
             } else {
@@ -563,6 +570,22 @@ pub fn make_prepop(raw: &[RawEntry], pool: &[String], depth: usize, nlayers: usi
                 Node::File(make_bytes(&d))
             };
             out.push((li, p.clone(), node));
+        }
+        // A directory whose name is a FILE in one deeper layer (one directory in eight): the
+        // first layer that has the path decides its type, so the union is still unambiguous -
+        // the file is shadowed, the directory's children are merged from the layers where it is
+        // a directory (also from layers below the shadowed file).
+        if e.is_dir && n >= 2 && e.vary & 0xE0 == 0xE0 {
+            if let Some(top) = placed.first().copied() {
+                let cands: Vec<usize> = (top + 1..n).filter(|j| !placed.contains(j) && !ancestors_of(&p).iter().any(|a| shadowed.contains(&(*j, a.clone())))).collect();
+                if !cands.is_empty() {
+                    let j = cands[(e.mask as usize / 16) % cands.len()];
+                    let mut d = e.data.clone();
+                    d.kind = 7 + d.kind % 12;
+                    out.push((j, p.clone(), Node::File(make_bytes(&d))));
+                    shadowed.insert((j, p.clone()));
+                }
+            }
         }
     }
     out
